@@ -63,7 +63,8 @@ def binary_stochastic_quantize(v: jnp.ndarray,
   v = jnp.nan_to_num((v - v_min) / (v_max - v_min))
   v = jnp.maximum(0., jnp.minimum(v, 1.))
   rand = jax.random.uniform(key=rng, shape=v.shape)
-  return jnp.where(rand > v, v_min, v_max)
+  # rand is in [0, 1): `>=` keeps v == 0 at v_min and v == 1 at v_max for every draw.
+  return jnp.where(rand >= v, v_min, v_max)
 
 
 def uniform_stochastic_quantize(v: jnp.ndarray,
